@@ -295,7 +295,11 @@ class A:
             mcells = idx.cells
             if isinstance(val, A) and len(vs) != len(self.idx):
                 if not all(isinstance(m, bool) for m in mcells):
-                    raise Unsupported("boolean-mask assignment of a compressed array with symbolic mask")
+                    from .runtime import FC
+                    if FC.active and not rt.frames:
+                        mcells = [bool(m) for m in mcells]          # glue under fork-and-replay: one path per selection pattern
+                    else:
+                        raise Unsupported("boolean-mask assignment of a compressed array with symbolic mask")
                 it = iter(vs)
                 vs = [next(it) if m else None for m in mcells]
             for j, (m, v) in enumerate(zip(mcells, vs)):
@@ -434,6 +438,14 @@ class A:
 
     def copy(self):
         return A(self.cells, self.dtype, self.shape)
+
+    @property
+    def flags(self):
+        class _Flags:
+            writeable = True          # NumPy arrays handed in by a caller are writable unless stated otherwise
+            c_contiguous = True
+            owndata = self.st.origin is None
+        return _Flags()
 
     def to_numpy(self, *a, **k):
         return self
